@@ -1,10 +1,12 @@
 """C08 — a connected link receives every gate update exactly once and in order."""
 PROPS_FILE = "Props_C08.v"
 RULE = ("random schedules over 1 root gate, up to 6 clones, 3 queue links and 3 direct links: subscribe / unsubscribe / "
-        "suspend / resume / clone / drop / late Follow* replay / update / query / terminate, with queue capacity 1-3 so that "
-        "updates are in flight (blocked on a full queue) while the subscription set changes; a case is non-trivial when at "
-        "least one update blocked mid-snapshot or a clone replayed commands late, and at least two deliveries happened; "
-        "distinct = distinct case text")
+        "suspend / resume / clone / drop / late Follow* replay / update / query / direct-update target dropped / metrics read / "
+        "terminate, with queue capacity 1-3 so that updates are in flight (blocked on a full queue) while the subscription set "
+        "changes; profile `fullq`: a clone that does not run process() collects 14-19 Follow* commands (its command queue holds 16), "
+        "then Terminate / drop, then the clones catch up. A case is non-trivial when at least one update blocked mid-snapshot, a "
+        "clone replayed commands late, or the root had to wait inside notify_clones (Z:blk / T:blk / c:blk), and at least two "
+        "deliveries happened or a Terminate was delivered late; distinct = distinct case text")
 TRUSTED_BASE = [
     "Coq 8.16.1 kernel (coqc; coqchk in thorough); no native_compute",
     "extraction with ExtrOcamlBasic only; OCaml driver oracle/{conv,eng_c08,oracle}.ml (incl. the macro-step scheduler: root drains its queue after every command, blocked publishers retry first-come first-served)",
@@ -13,21 +15,69 @@ TRUSTED_BASE = [
     "NOT modelled (exercised only): tokio scheduling, tokio::sync::mpsc internals (assumed: FIFO, bounded, fair hand-over of freed capacity, recv() = None when all senders are gone), Reconfigure",
 ]
 ASSUMPTIONS = [
-    "each FrimMap operation (insert/remove/guard) is atomic (property C18) and each command handled by Gate::process() is one step; clone command queues (capacity 16) never fill up",
+    "each FrimMap operation (insert/remove/guard) is atomic (property C18); each command handled by Gate::process() is one step plus one step per send of notify_clones (a send into a full clone command queue, capacity 16, waits); the ROOT's own command queue (also 16) is unbounded in the model and kept short by the engines",
     "tokio mpsc channels are FIFO, bounded, and close when all senders are dropped; the scheduler is arbitrary (theorems quantify over all action lists)",
-    "a component keeps its direct-update target alive while connected; links do not cancel connect() half-way",
+    "links do not cancel connect() half-way; a dropped direct-update target is modelled per gate slot (action ARxDrop)",
     "GateCommand::Reconfigure (gate take-over on config reload) is not modelled",
 ]
 
 NL = 6
 
 
+def gen_fullq(rng):
+    """A clone that does not run process() while links come and go: 14-19 Follow* commands for a command queue of 16,
+    then Terminate (gate kept / dropped) or the gate is dropped, then the clones catch up."""
+    cap = rng.weighted([(1, 30), (2, 40), (3, 30)])
+    ops = ["Q %d" % cap]
+    nclones = rng.weighted([(1, 50), (2, 35), (3, 15)])
+    ops += ["k"] * nclones
+    victim = 1 + rng.below(nclones)
+    notes = rng.range(14, 19)
+    conn = set()
+    done = 0
+    while done < notes:
+        l = rng.below(NL)
+        if l in conn:
+            ops.append("d %d" % l)
+            conn.discard(l)
+        else:
+            ops.append("c %d" % l)
+            conn.add(l)
+        done += 1
+        if rng.chance(25):
+            ops.append("u %d" % rng.below(nclones + 1))
+        if rng.chance(10):
+            ops.append("q %d" % (2 * rng.below(NL // 2)))
+        if nclones > 1 and rng.chance(20):
+            ops.append("D %d" % (1 + rng.below(nclones)))
+        if rng.chance(4):
+            ops.append("F %d" % victim)
+        if rng.chance(4):
+            ops.append("t %d" % (1 + 2 * rng.below(NL // 2)))
+    ops.append(rng.weighted([("Z", 50), ("T", 30), ("X", 8), ("M", 6), ("k", 6)]))
+    for _ in range(rng.range(2, 9)):
+        k = rng.weighted([("D", 28), ("F", 24), ("u", 18), ("x", 8), ("X", 8), ("q", 8), ("c", 3), ("Z", 3)])
+        if k in ("D", "F", "x"):
+            ops.append("%s %d" % (k, 1 + rng.below(nclones)))
+        elif k == "u":
+            ops.append("u %d" % rng.below(nclones + 1))
+        elif k == "q":
+            ops.append("q %d" % (2 * rng.below(NL // 2)))
+        elif k == "c":
+            ops.append("c %d" % rng.below(NL))
+        else:
+            ops.append(k)
+    return ";".join(ops)
+
+
 def gen_case(rng, profile):
+    if profile == "fullq":
+        return gen_fullq(rng)
     n = rng.range(6, 45)
     cap = rng.weighted([(1, 45), (2, 35), (3, 20)])
     ops = ["Q %d" % cap]
     nclones = 0
-    w = {"c": 16, "d": 8, "s": 5, "r": 4, "q": 14, "u": 26, "k": 5, "x": 3, "F": 7, "D": 5, "T": 1, "X": 1, "Z": 1}
+    w = {"c": 16, "d": 8, "s": 5, "r": 4, "q": 14, "u": 26, "k": 5, "x": 3, "F": 7, "D": 5, "T": 1, "X": 1, "Z": 1, "t": 3, "M": 2}
     if profile == "churn":
         w.update({"c": 22, "d": 14, "F": 12, "k": 8, "u": 22})
     elif profile == "pressure":
@@ -35,27 +85,42 @@ def gen_case(rng, profile):
     elif profile == "term":
         w.update({"T": 4, "X": 4, "Z": 5, "k": 9, "x": 6, "F": 9})
     pairs = list(w.items())
+    lag = {}   # Follow* commands a clone may have pending (upper bound): these profiles keep it below the queue size
     # most cases start with something connected and a clone around
     if rng.chance(70):
         ops.append("c %d" % rng.below(NL))
     if rng.chance(60):
         ops.append("k")
         nclones += 1
+        lag[nclones] = 0
     for i in range(n):
         k = rng.weighted(pairs)
         if k in ("T", "X", "Z") and profile != "term" and 3 * i < 2 * n:
             k = "u"   # keep the root alive for most of the schedule
+        if k in ("c", "d"):
+            for c in lag:
+                if lag[c] >= 12 and not rng.chance(8):
+                    ops.append("D %d" % c)
+                    lag[c] = 0
+                lag[c] += 1
         if k in ("c", "d", "s", "r"):
             ops.append("%s %d" % (k, rng.below(NL)))
+        elif k == "t":
+            ops.append("t %d" % (1 + 2 * rng.below(NL // 2)))
         elif k == "q":
             ops.append("q %d" % (2 * rng.below(NL // 2)))
         elif k == "u":
             ops.append("u %d" % rng.below(nclones + 1))
         elif k == "k":
             ops.append("k")
-            nclones = min(nclones + 1, 6)
+            if nclones < 6:
+                nclones += 1
+                lag[nclones] = 0
         elif k in ("x", "F", "D"):
-            ops.append("%s %d" % (k, 1 + rng.below(max(1, nclones))))
+            c = 1 + rng.below(max(1, nclones))
+            ops.append("%s %d" % (k, c))
+            if k == "D" and c in lag:
+                lag[c] = 0
         else:
             ops.append(k)
     return ";".join(ops)
@@ -63,9 +128,85 @@ def gen_case(rng, profile):
 
 def gen(rng, tier):
     n = 2400 if tier == "quick" else 40000
-    profiles = ["mixed", "churn", "pressure", "term"]
+    profiles = ["mixed", "churn", "pressure", "term", "fullq"]
     for i in range(n):
-        yield gen_case(rng, profiles[i % 4])
+        yield gen_case(rng, profiles[i % 5])
+
+
+def gen_metrics_case(rng):
+    """C15, gate part: few links, updates that reach somebody / nobody (no link, a suspended link, a dropped direct-update
+    target, a dropped queue receiver), GateMetrics read at random points."""
+    cap = rng.weighted([(1, 30), (2, 40), (3, 30)])
+    ops = ["Q %d" % cap]
+    nclones = 0
+    pairs = [("u", 30), ("M", 14), ("c", 14), ("d", 8), ("t", 10), ("s", 5), ("r", 3), ("q", 8), ("k", 4), ("x", 2), ("D", 2)]
+    nl = rng.weighted([(2, 40), (4, 35), (6, 25)])
+    for _ in range(rng.range(5, 30)):
+        k = rng.weighted(pairs)
+        if k in ("c", "d", "s", "r"):
+            ops.append("%s %d" % (k, rng.below(nl)))
+        elif k == "t":
+            ops.append("t %d" % (1 + 2 * rng.below(nl // 2)))
+        elif k == "q":
+            ops.append("q %d" % (2 * rng.below(nl // 2)))
+        elif k == "u":
+            ops.append("u %d" % rng.below(nclones + 1))
+        elif k == "k":
+            ops.append("k")
+            nclones = min(nclones + 1, 6)
+        elif k in ("x", "D"):
+            ops.append("%s %d" % (k, 1 + rng.below(max(1, nclones))))
+        else:
+            ops.append(k)
+    ops.append("M")
+    return ";".join(ops)
+
+
+def gen_metrics(rng, tier):
+    n = 900 if tier == "quick" else 15000
+    for i in range(n):
+        yield gen_metrics_case(rng)
+
+
+def _metric_reads(out):
+    r = []
+    for t in out.split():
+        if t.startswith(("M:", "m=")):
+            a, b = t[2:].split("/")
+            r.append((int(a), int(b)))
+    return r
+
+
+def nontrivial_metrics(case, out):
+    r = _metric_reads(out)
+    return len(r) >= 2 and any(0 < b < a for a, b in r)
+
+
+def classify_metrics(case, out):
+    ks = []
+    r = _metric_reads(out)
+    a, b = r[-1] if r else (0, 0)
+    ks.append("updates=0" if a == 0 else "updates<=5" if a <= 5 else "updates>5")
+    ks.append("dropped=0" if b == 0 else "dropped=all" if b == a else "dropped-some")
+    toks = out.split()
+    for tag, key in (("t:ok", "direct-target-dropped"), ("d:ok", "disconnect"), ("s:ok", "suspend"), ("u:blk", "update-blocked-mid-snapshot")):
+        if tag in toks:
+            ks.append(key)
+    return ks
+
+
+def corpus_metrics():
+    return [
+        # nobody there / somebody there
+        "u 0;M;c 1;u 0;M",
+        # the direct link's target is dropped while the slot is still registered: the update reaches nobody (seeded C15-3)
+        "c 1;u 0;M;t 1;u 0;M",
+        "k;c 1;c 3;u 1;t 1;u 1;M;t 3;u 1;u 0;M",
+        # a queue link that disconnected while the update was in flight: send fails, nobody else took it
+        "Q 1;c 0;u 0;u 0;d 0;M;q 0;M",
+        # a suspended link does not count
+        "c 0;s 0;u 0;M;r 0;u 0;M",
+    ]
 
 
 def _deliveries(out):
@@ -78,7 +219,8 @@ def _deliveries(out):
 
 
 def nontrivial(case, out):
-    return ("u:blk" in out or "F:ok" in out or "D:idle" in out) and _deliveries(out) >= 2
+    late = "Z:blk" in out or "T:blk" in out or "c:blk" in out
+    return ("u:blk" in out or "F:ok" in out or "D:idle" in out or late) and (_deliveries(out) >= 2 or late)
 
 
 def classify(case, out):
@@ -88,7 +230,9 @@ def classify(case, out):
     ks.append("ops<=15" if n <= 15 else "ops<=30" if n <= 30 else "ops>30")
     for tag, key in (("u:blk", "update-blocked-mid-snapshot"), ("c:gone", "connect-after-gone"), ("q:gone", "query-gone"),
                      ("d:ok", "disconnect"), ("s:ok", "suspend"), ("r:ok", "resume"), ("x:ok", "clone-dropped"),
-                     ("T:ok", "terminate"), ("Z:ok", "terminate-gate-kept"), ("X:ok", "root-dropped"), ("F:term", "clone-sees-terminate"), ("D:term", "clone-sees-terminate")):
+                     ("T:ok", "terminate"), ("Z:ok", "terminate-gate-kept"), ("X:ok", "root-dropped"),
+                     ("T:blk", "terminate-under-full-clone-queue"), ("Z:blk", "terminate-under-full-clone-queue"), ("c:blk", "connect-waits-for-root"),
+                     ("t:ok", "direct-target-dropped"), ("F:term", "clone-sees-terminate"), ("D:term", "clone-sees-terminate")):
         if tag in toks[:n]:
             ks.append(key)
     d = _deliveries(out)
@@ -113,6 +257,17 @@ def corpus():
         # Terminate must reach the clones through their command queues (the gate object is still alive)
         "k;k;c 0;u 1;Z;F 1;u 2;D 2;u 0;c 1;X;q 0;q 0;q 0;q 0",
         "k;c 1;Z;u 1;F 1;x 1;X",
+        # Terminate while a clone that does not run process() has 16 Follow* commands pending (seeded C08-3): the root waits
+        # inside notify_clones, the clone gets Terminate late - but gets it
+        "k;c 0;c 1;d 0;d 1;c 0;d 0;c 0;d 0;c 0;d 0;c 0;d 0;c 0;d 0;c 0;d 0;M;Z;D 1;M",
+        "k;c 0;c 1;d 0;d 1;c 0;d 0;c 0;d 0;c 0;d 0;c 0;d 0;c 0;d 0;c 0;d 0;c 0;d 0;c 2;u 0;Z;F 1;D 1",
+        # head of line: clone 2 is behind clone 1 on the root's list
+        "k;k;c 0;c 1;d 0;d 1;c 0;d 0;c 0;d 0;c 0;d 0;c 0;d 0;c 0;d 0;c 0;d 0;D 2;T;u 1;D 2;F 1;u 2;D 1",
+        # a connect() stays in flight while the root waits; the gate is dropped / the clone is dropped
+        "k;c 0;c 1;d 0;d 1;c 0;d 0;c 0;d 0;c 0;d 0;c 0;d 0;c 0;d 0;c 0;d 0;c 0;c 2;u 0;q 0;X",
+        "k;c 0;c 1;d 0;d 1;c 0;d 0;c 0;d 0;c 0;d 0;c 0;d 0;c 0;d 0;c 0;d 0;c 0;c 2;x 1;u 0;q 2",
+        # the direct link's target is dropped while its slot is still registered (seeded C15-3)
+        "c 1;u 0;t 1;u 0;M;d 1;c 1;u 0",
     ]
 
 
@@ -140,12 +295,16 @@ def soak(V, tier, seed):
 
 
 ENGINES = [{"name": "c08", "gen": gen, "corpus": corpus, "nontrivial": nontrivial, "classify": classify, "shards": 8}]
+# the gate part of C15 (GateMetrics num_updates / num_dropped_updates), appended to lib/props/c15.py's ENGINES
+C15_GATE_ENGINE = {"name": "c15gate", "gen": gen_metrics, "corpus": corpus_metrics, "nontrivial": nontrivial_metrics,
+                   "classify": classify_metrics, "shards": 8}
 EXTRAS = [soak]
 
 LEVEL_TEXT = ("Theorems over ALL schedules (arbitrary action lists) of an interleaving model of Gate/Link/DirectLink: per link and "
               "publisher deliveries strictly increase (at most once, in order), every finished update reached every slot of the "
               "snapshot it took unless that link dropped its receiver, a connected unsuspended link is in every new snapshot, "
-              "Terminate reaches every attached clone and dropping all gates closes every link; kernel-checked, axiom-free; model "
+              "Terminate reaches every attached clone - late but never lost when a clone's bounded command queue is full - and dropping all gates "
+              "closes every link, the gate counters equal the number of finished / untaken updates; kernel-checked, axiom-free; model "
               "tied to src/comms.rs by differential execution of generated schedules on every run.")
 DESIGN_REF = "DESIGN.md section 6, C08"
 LEVEL_NOTE = ("PARTIAL by design: the proof covers the interleavings of the modelled atomic steps; the tokio scheduler and mpsc internals "
